@@ -406,11 +406,22 @@ def doPsInto (l : Line) : Option String := do
   let x ← l.get? "x" >>= parseBTreeStr
   let o ← l.get? "out" >>= parseBTreeStr
   let (uname, rule) ← plegacyRule name
-  if rule ≠ PLegacyRule.mapOrInto then none
-  let f ← unaryOp uname
-  match psMapInto f h x o with
-  | some h' => some s!"ok {showHeap h'}"
-  | none => some "err"
+  match l.get? "arg" with
+  | some a =>
+    -- `px.ufuncs.<binary name>(c, out=o)`: scalar branch of the (2,1) wrapper
+    if !a.startsWith "s:" then none
+    let c ← parseRat (a.drop 2).toString
+    if rule ≠ PLegacyRule.binary then none
+    let op ← binaryOp uname
+    match psBinScalarInto op c h x o with
+    | some h' => some s!"ok {showHeap h'}"
+    | none => some "err"
+  | none =>
+    if rule ≠ PLegacyRule.mapOrInto then none
+    let f ← unaryOp uname
+    match psMapInto f h x o with
+    | some h' => some s!"ok {showHeap h'}"
+    | none => some "err"
 
 def handle (l : Line) : Option String :=
   match l.op with
